@@ -404,7 +404,14 @@ fn classify(src: &str, ro: &RunOut, f: &Failure) -> String {
             "sugar-to-as-operand" => matches!(kind, "rejected" | "text" | "type" | "value" | "value-ulp"),
             "callable-compound-callee" | "field-of-compound" => matches!(kind, "rejected" | "type" | "value"),
             "generic-fn-where-type" => matches!(kind, "rejected" | "type"),
-            "pow-negative-literal-exponent" | "date-add-chain" | "inferred-type-unicode-exponent" | "literal-not-exact" | "conv-chain-conditional" => kind == "text",
+            "pow-negative-literal-exponent" | "conv-chain-conditional" => kind == "text",
+            // `dt0 + (t1 + abs(t1))` → `dt0 + t1 + abs(t1)`: re-read left-nested, `(dt0 + t1) + abs(t1)` is rejected
+            // (the checker needs the right operand of DateTime + … to be known as Time)
+            "date-add-chain" => matches!(kind, "text" | "rejected" | "type"),
+            // `fn h1() = 0**10` → `-> A¹⁰`: the tokenizer has no superscript zero
+            "inferred-type-unicode-exponent" => matches!(kind, "text" | "rejected"),
+            // `"{1.0000001:05}"` → `"{1.0:05}"`: the re-read value is integral and takes another formatting path
+            "literal-not-exact" => matches!(kind, "text" | "rejected"),
             "negated-sugar-from" => matches!(kind, "value" | "text"),
             "annotation-rational-exponent" => matches!(kind, "rejected" | "text"),
             "mul-chain-regrouped" => matches!(kind, "text" | "value-ulp" | "print"),
@@ -769,7 +776,7 @@ fn main() {
     }
 
     let mut rng = Rng::new(args.seed);
-    let n = args.count(1000, 40000);
+    let n = args.count(1000, 20000);
     for i in 0..n {
         let mut crng = rng.fork(i as u64);
         let depth = 1 + (i % 4);
@@ -778,7 +785,7 @@ fn main() {
         let stmts: Vec<Stmt> = (0..k).map(|_| g.stmt(depth)).collect();
         h.run_case(&stmts, true);
     }
-    let ns = args.count(1500, 60000);
+    let ns = args.count(1500, 40000);
     for _ in 0..ns {
         let s = random_string(&mut rng);
         h.string_case(&s);
